@@ -193,6 +193,17 @@ def _inline_calls(view, tree, policy, stack, depth, log):
     if depth > 3:
         return
 
+    FN_CALLS = ("core::ops::function::Fn::call", "core::ops::function::FnMut::call_mut", "core::ops::function::FnOnce::call_once")
+    # local closures bound once by `let name = |..| ..;` (never re-assigned): calls of them are inlined as well
+    clos = {}
+    for n in walk(tree):
+        if n.get("k") == "Block":
+            for st in n["stmts"]:
+                if st["s"] == "let" and isinstance(st.get("pat"), dict) and st["pat"].get("k") == "Binding" and not st["pat"].get("sub") \
+                        and st.get("init") is not None and isinstance(strip(st["init"]), dict) and strip(st["init"]).get("k") == "Closure":
+                    clos[st["pat"]["v"]] = strip(st["init"])["closure"]
+    inlined_clos = set()
+
     def visit(x):
         if isinstance(x, dict):
             for k, v in list(x.items()):
@@ -213,23 +224,40 @@ def _inline_calls(view, tree, policy, stack, depth, log):
                     cb = view.base.body(d)
                     if policy(view.base, cb):
                         return build(x, cb)
+                if c.get("path") in FN_CALLS and len(x["args"]) == 2:
+                    f = peel(x["args"][0])
+                    tup = strip(x["args"][1])
+                    if isinstance(f, dict) and f.get("k") in ("VarRef", "UpvarRef") and f["v"] in clos and isinstance(tup, dict) and tup.get("k") == "Tuple":
+                        cd = clos[f["v"]]
+                        cb = view.body(cd)
+                        if cb is not None and cd not in stack and closure_policy(view, cb):
+                            inlined_clos.add(f["v"])
+                            return build(x, cb, args=tup["fields"], is_closure=True)
             return x
         return x
 
-    def build(call, cb):
+    def build(call, cb, args=None, is_closure=False):
         view._counter += 1
         suffix = "@%d" % view._counter
-        params = [p for p in view.base.params(cb) if p.get("pat")]
+        params = [p for p in view.params(cb) if p.get("pat")]
         subst = {}
         lets = []
-        for p, a in zip(params, call["args"]):
+        if is_closure:
+            # captured variables keep their identity (they are the enclosing body's variables)
+            for cap in cb.get("captures", []) or []:
+                if cap.get("v"):
+                    subst[cap["v"]] = cap["v"]
+            for x_ in walk(view.root(cb)):
+                if x_.get("k") == "UpvarRef":
+                    subst.setdefault(x_["v"], x_["v"])
+        for p, a in zip(params, call["args"] if args is None else args):
             pat = p["pat"]
             pa = peel(a)
             if pat.get("k") == "Binding" and not pat.get("sub") and isinstance(pa, dict) and pa.get("k") in ("VarRef", "UpvarRef"):
                 subst[pat["v"]] = pa["v"]
             else:
                 lets.append({"s": "let", "sp": call.get("sp"), "pat": None, "init": a, "_pat_src": pat})
-        body = _rename_tree(view, view.base.root(cb), suffix, subst)
+        body = _rename_tree(view, view.root(cb) if is_closure else view.base.root(cb), suffix, subst)
         if any(x.get("k") == "Return" for x in walk(body)):
             eliminate_returns(body)
         for l in lets:
@@ -240,6 +268,34 @@ def _inline_calls(view, tree, policy, stack, depth, log):
         return blk
 
     visit(tree)
+    # a closure all of whose uses were inlined is dead: drop its `let` so that its body is not analysed out of context
+    for v in inlined_clos:
+        uses = sum(1 for n in walk(tree) if n.get("k") in ("VarRef", "UpvarRef") and n.get("v") == v)
+        if uses == 0:
+            for n in walk(tree):
+                if n.get("k") == "Block":
+                    n["stmts"] = [st for st in n["stmts"] if not (st["s"] == "let" and isinstance(st.get("pat"), dict)
+                                                                  and st["pat"].get("k") == "Binding" and st["pat"].get("v") == v)]
+
+
+def closure_policy(view, cb):
+    """a local closure is inlined when it is small, return-free (or return-eliminable) and does not attach graph structure"""
+    root = view.root(cb)
+    if root is None:
+        return False
+    size = 0
+    for n in walk(root):
+        size += 1
+        if n.get("k") == "Call" and resolved(n) in ("corgi::array::Array::with_children", "corgi::array::Array::sliced_op",
+                                                    "corgi::array::Array::with_backward_op"):
+            return False
+    if size > 400:
+        return False
+    if any(n.get("k") == "Return" for n in walk(root)):
+        trial = copy.deepcopy(root)
+        if not eliminate_returns(trial):
+            return False
+    return True
 
 
 def inline_body(view, b, policy=default_policy):
@@ -351,6 +407,87 @@ def propagate_place_aliases(view, root):
     return count[0]
 
 
+NEXT = "core::iter::traits::iterator::Iterator::next"
+
+
+def normalise_while_let(root):
+    """`let mut it = ITER; while let Some(PAT) = it.next() { BODY }`  ==>  the desugared form of
+    `for PAT in ITER { BODY }`, when `it` is used nowhere else.  (In place; returns the number of loops rewritten.)
+    `break` / `continue` inside BODY keep their meaning: both forms are one `loop` around BODY."""
+    uses = {}
+    for n in walk(root):
+        if n.get("k") in ("VarRef", "UpvarRef"):
+            uses[n["v"]] = uses.get(n["v"], 0) + 1
+    count = 0
+
+    def while_let(loop):
+        """(iterator var, Some-pattern, body, else) of a while-let loop node"""
+        if not isinstance(loop, dict) or loop.get("k") != "Loop":
+            return None
+        b = strip(loop["body"])
+        while isinstance(b, dict) and b.get("k") == "Block" and not b["stmts"] and b.get("e") is not None:
+            b = strip(b["e"])
+        if not isinstance(b, dict) or b.get("k") != "If" or b.get("else") is None:
+            return None
+        cond = strip(b["cond"])
+        if cond.get("k") != "Let":
+            return None
+        call = strip(cond["e"])
+        pat = cond["pat"]
+        if call.get("k") != "Call" or (call.get("callee") or {}).get("path") != NEXT or len(call["args"]) != 1:
+            return None
+        if pat.get("k") != "Variant" or pat.get("variant") != "Some" or not pat.get("subs"):
+            return None
+        it = peel(call["args"][0])
+        if not isinstance(it, dict) or it.get("k") != "VarRef":
+            return None
+        els = strip(b["else"])
+        if not any(x.get("k") == "Break" for x in walk(els)):
+            return None
+        return it["v"], pat, b["then"], b["else"], call
+
+    def rewrite(blk):
+        nonlocal count
+        i = 0
+        while i < len(blk["stmts"]):
+            st = blk["stmts"][i]
+            if st["s"] == "let" and isinstance(st.get("pat"), dict) and st["pat"].get("k") == "Binding" and not st["pat"].get("sub") \
+                    and st.get("init") is not None and uses.get(st["pat"]["v"], 0) == 1:
+                v = st["pat"]["v"]
+                # the loop is a later statement of the same block or its tail
+                for j in range(i + 1, len(blk["stmts"]) + 1):
+                    holder, key = (blk["stmts"][j], "e") if j < len(blk["stmts"]) else (blk, "e")
+                    if j < len(blk["stmts"]) and holder["s"] != "expr":
+                        continue
+                    cand = holder.get(key)
+                    inner = cand
+                    while isinstance(inner, dict) and inner.get("k") in ("Use", "NeverToAny", "Scope"):
+                        inner = inner["e"]
+                    wl = while_let(inner)
+                    if wl and wl[0] == v:
+                        _, pat, body, els, call = wl
+                        some_arm = {"pat": pat, "guard": None, "body": body}
+                        none_arm = {"pat": {"k": "Variant", "adt": "core::option::Option", "variant": "None", "subs": [], "ty": pat.get("ty")},
+                                    "guard": None, "body": els}
+                        inner_match = {"k": "Match", "ty": "()", "sp": inner.get("sp"), "scrutinee": call, "source": "ForLoopDesugar(normalised)",
+                                       "arms": [none_arm, some_arm]}
+                        loop = {"k": "Loop", "ty": "()", "sp": inner.get("sp"),
+                                "body": {"k": "Block", "sp": inner.get("sp"), "safety": "safe", "stmts": [{"s": "expr", "e": inner_match}], "e": None, "ty": "()"}}
+                        outer = {"k": "Match", "ty": "()", "sp": inner.get("sp"), "scrutinee": st["init"], "source": "ForLoopDesugar(normalised)",
+                                 "arms": [{"pat": st["pat"], "guard": None, "body": loop}]}
+                        holder[key] = outer
+                        del blk["stmts"][i]
+                        count += 1
+                        i -= 1
+                        break
+            i += 1
+
+    for n in list(walk(root)):
+        if n.get("k") == "Block":
+            rewrite(n)
+    return count
+
+
 _CACHE = {}
 
 
@@ -367,6 +504,7 @@ def engine_view(facts):
             nb = inline_body(view, b)
             if nb.get("thir"):
                 propagate_place_aliases(view, nb["thir"]["root"])
+                normalise_while_let(nb["thir"]["root"])
     _CACHE.clear()
     _CACHE[key] = (facts, view)
     return view
